@@ -78,7 +78,10 @@ def run(ctx, replay=None):
     for i, d in enumerate(docs):
         if i >= len(sl) or ' ' not in sl[i]:
             continue
-        text, e = sl[i].split(' ', 1)
+        wf, text, e = sl[i].split(' ', 2)
+        ctx.count('ini-generated:' + wf)
+        if wf != 'wf':            # outside the hypothesis of C20_ini_roundtrip: a generator slip, not evidence of anything
+            continue
         ops.append('ini %d %s' % (d[0], text)); exp.append((i, e))
         if b'@INCLUDE ' not in unhex(text) and (i % 3 == 0):
             ops.append('inif %d %s' % (d[0], text)); exp.append((i, e))
